@@ -739,6 +739,53 @@ def _dc_replace(interp, args, kwargs, state, node):
     raise _i().Unsupported('dataclasses.replace at ' + interp.site(node))
 
 
+def _b_iter_single_use(interp, args, kwargs, state, node):
+    """iter(<compile-time tuple>): a single-use iterator over its
+    elements (what one consumer takes, the next one does not see); other
+    arguments are handed on as they are."""
+    if len(args) == 1 and isinstance(args[0], tuple):
+        return interp.alloc(state, _i().ListObj(
+            list(args[0]), gen=True, origin=interp.site(node)))
+    return args[0]
+
+
+def _it_takewhile(interp, args, kwargs, state, node):
+    """itertools.takewhile(pred, it) over a compile-time sequence whose
+    predicate is decided for each element: the prefix; a single-use
+    iterator is left after the first failing element (which is consumed
+    and dropped)."""
+    pred, src = args
+    o = interp.obj(state, src) if isinstance(src, Ref) else None
+    if o is not None and o.kind == 'list' and not o.more:
+        items = list(o.items)
+    else:
+        items = static_sequence(interp, src, state)
+        o = None
+    if items is None:
+        raise _i().Unsupported('itertools.takewhile over a run-time '
+                               'iterable at %s' % interp.site(node))
+    out = []
+    rest = []
+    for i, x in enumerate(items):
+        v = interp.truth(interp.call_value(pred, [x], {}, state, node),
+                         state, node)
+        d = v if isinstance(v, bool) else interp.decide(v, state)
+        if d is None:
+            raise _i().Unsupported('itertools.takewhile with a run-time '
+                                   'predicate at %s' % interp.site(node))
+        if not d:
+            rest = items[i + 1:]
+            break
+        out.append(x)
+    if o is not None and getattr(o, 'gen', False):
+        state.store[src.id] = _i().ListObj(rest, False, o.shared, o.origin,
+                                           o.source, gen=True)
+        if src.id in interp.static_store:
+            interp.static_store[src.id] = state.store[src.id]
+    return interp.alloc(state, _i().ListObj(out, gen=True,
+                                            origin=interp.site(node)))
+
+
 def _b_hasattr(interp, args, kwargs, state, node):
     base, name = args
     if isinstance(name, str) and isinstance(base, (Ref, ClassInfo,
@@ -871,9 +918,37 @@ def _b_sorted(interp, args, kwargs, state, node):
     return Sym('sorted', _t(args[0]), kw)
 
 
+def _iterate_instance(interp, v, state, node, presize):
+    """Iterating an instance of a package class: its __iter__ runs (list()
+    and tuple() first ask __len__ for a size hint when there is one).
+    -> the value __iter__ returns (a generator's element list), or None
+    when v is not such an instance."""
+    if not isinstance(v, Ref):
+        return None
+    o = interp.obj(state, v)
+    if o.kind != 'inst':
+        return None
+    m_iter = interp.prog.find_method(o.cls, '__iter__')
+    if m_iter is None:
+        return None
+    if presize:
+        m_len = interp.prog.find_method(o.cls, '__len__')
+        if m_len is not None:
+            interp.call_function(m_len, [v], {}, state, node)
+    return interp.call_function(m_iter, [v], {}, state, node)
+
+
 def _b_list(interp, args, kwargs, state, node):
     if not args:
         return interp.alloc(state, _i().ListObj((), origin=interp.site(node)))
+    it_ = _iterate_instance(interp, args[0], state, node, presize=True)
+    if it_ is not None:
+        args = [it_] + list(args[1:])
+        if isinstance(it_, Ref):
+            o_ = interp.obj(state, it_)
+            if o_.kind == 'list':
+                return interp.alloc(state, _i().ListObj(
+                    o_.items, o_.more, origin=interp.site(node)))
     seq = static_sequence(interp, args[0], state)
     if seq is not None:
         return interp.alloc(state, _i().ListObj(seq,
@@ -1712,6 +1787,7 @@ _EXT_CALLS = {
     'builtins.getattr': _b_getattr, 'builtins.setattr': _b_setattr,
     'builtins.hasattr': _b_hasattr, 'builtins.int': _b_int,
     'builtins.vars': _b_vars, 'dataclasses.replace': _dc_replace,
+    'itertools.takewhile': _it_takewhile,
     'builtins.bool': _b_bool, 'builtins.str': _b_str,
     'builtins.float': _b_float, 'builtins.bytes': _b_bytes,
     'builtins.bytearray': _b_bytearray, 'builtins.sorted': _b_sorted,
@@ -1737,7 +1813,7 @@ _EXT_CALLS = {
     'builtins.hex': _b_hex, 'builtins.id': _b_id, 'builtins.type': _b_type,
     'builtins.enumerate': _b_enumerate, 'builtins.zip': _b_zip,
     'builtins.reversed': _b_reversed, 'builtins.super': _b_super,
-    'builtins.iter': _b_iter,
+    'builtins.iter': _b_iter_single_use,
     'struct.pack': _s_pack, 'struct.unpack': _s_unpack,
     'struct.unpack_from': _s_unpack_from, 'struct.calcsize': _s_calcsize,
     'struct.Struct': _s_Struct, 're.compile': _re_compile,
@@ -2191,6 +2267,16 @@ def _key_const(k):
 
 def get_item(interp, base, k, state, node):
     ABSENT = _i().ABSENT
+    if isinstance(base, Sym) and base.op == 'instdict' and \
+            isinstance(k, str) and isinstance(base.args[0], Ref):
+        # obj.__dict__['name']: the instance attribute of that name
+        sentinel = Sym('nosuchattr')
+        v = interp.get_attr(base.args[0], k, state, node, sentinel)
+        if v is sentinel:
+            interp.raise_pending(state, E('builtins.KeyError'), node,
+                                 'no instance attribute %s' % k, cond=True)
+            raise _i()._NoReturn()
+        return v
     ntv = _namedtuple_values(interp, base, state)
     if ntv is not None and isinstance(k, int) and not isinstance(k, bool) \
             and -len(ntv) <= k < len(ntv):
